@@ -74,6 +74,11 @@ pub enum RangeOp {
     Inspect { view: RView, n: usize },
     Snapshot,
     BadSym { m: usize, sym: i64 },
+    /// take the encoder apart (`into_raw_parts`) and put it together again (`from_raw_parts`):
+    /// suspending and resuming a half-finished encoder
+    Reassemble,
+    /// `clear()`: restart with an empty message on the same encoder (Vec sink, no prefix)
+    Clear,
 }
 
 #[derive(Clone, Debug, Serialize, Deserialize, PartialEq)]
@@ -177,6 +182,15 @@ impl<C: Ws> Enc<C> {
             Enc::St(c) => to_words(&c.bulk().data),
         }
     }
+    fn written_len(&self) -> usize {
+        match self {
+            Enc::V(c) => c.bulk().len(),
+            Enc::Sm(c) => c.bulk().len(),
+            Enc::Cb(_, o) | Enc::Fcb(_, o) => o.borrow().len(),
+            Enc::Cur(c) => c.bulk().pos(),
+            Enc::St(c) => c.bulk().data.len(),
+        }
+    }
     fn clone_(&self) -> Option<Self> {
         Some(match self {
             Enc::V(c) => Enc::V(c.clone()),
@@ -189,7 +203,17 @@ impl<C: Ws> Enc<C> {
     /// sealed words including the prefix; consumes
     fn finish(self) -> Option<Vec<u64>> {
         Some(match self {
-            Enc::V(c) => to_words(&c.into_compressed().unwrap_infallible()),
+            // two public routes to the sealed words of a Vec-backed encoder: `into_compressed()`
+            // and `Vec::from(encoder)`. Which one is taken is a function of the encoder's state
+            // (so replay stays a pure function of the trace) and both are hit at every kind of
+            // position.
+            Enc::V(c) => {
+                if c.bulk().len().wrapping_add(s_to(c.state().lower()) as usize) & 1 == 1 {
+                    to_words(&Vec::<C::W>::from(c))
+                } else {
+                    to_words(&c.into_compressed().unwrap_infallible())
+                }
+            }
             Enc::Sm(c) => to_words(&c.into_compressed().unwrap_infallible()),
             Enc::Cb(c, o) => {
                 drop(c.into_compressed().unwrap_infallible());
@@ -222,6 +246,22 @@ impl<C: Ws> Enc<C> {
             Enc::Cur(c) => format!("{:?}", { let (b, s, t) = c.clone().into_raw_parts(); (b.pos(), s, t) }),
             _ => return None,
         })
+    }
+    fn reassemble(self) -> Self {
+        macro_rules! re {
+            ($c:expr) => {{
+                let (b, s, sit) = $c.into_raw_parts();
+                RangeEncoder::from_raw_parts(b, s, sit)
+            }};
+        }
+        match self {
+            Enc::V(c) => Enc::V(re!(c)),
+            Enc::Sm(c) => Enc::Sm(re!(c)),
+            Enc::Cb(c, o) => Enc::Cb(re!(c), o),
+            Enc::Fcb(c, o) => Enc::Fcb(re!(c), o),
+            Enc::Cur(c) => Enc::Cur(re!(c)),
+            Enc::St(c) => Enc::St(re!(c)),
+        }
     }
     fn num_inverted(&self) -> Option<usize> {
         use constriction::stream::queue::EncoderSituation as Es;
@@ -287,6 +327,11 @@ fn exec_cfg<C: Ws>(t: &RangeTrace, ctx: &mut Ctx, skip_inspect: bool) -> Result<
     // per-step monitors
     macro_rules! monitors {
         () => {{
+            // long messages (C12 only): every monitor below costs O(n), evaluate them at every
+            // 37th symbol beyond 2000
+            let thinned = message.len() > 2000 && message.len() % 37 != 0;
+            if thinned {
+            } else {
             if let Some(ni) = enc.num_inverted() {
                 let st = enc.state();
                 let h = hash_mix(hash_mix(ni.min(4) as u64, (128 - st.1.leading_zeros()) as u64), hash_mix(t.cfg as u64, (st.0 >> (C::SB - C::WB)) as u64 & 3));
@@ -350,11 +395,13 @@ fn exec_cfg<C: Ws>(t: &RangeTrace, ctx: &mut Ctx, skip_inspect: bool) -> Result<
                     }
                 }
             }
+            }
         }};
     }
 
     for (i, op) in t.ops.iter().enumerate() {
         ctx.op = i;
+        let enc_num_inv = if matches!(op, RangeOp::Clear) { enc.num_inverted() } else { None };
         match op {
             RangeOp::Enc { sym, m } => {
                 let Some(b) = model(*m) else { ctx.stats.hit("skipped-op"); continue };
@@ -379,7 +426,7 @@ fn exec_cfg<C: Ws>(t: &RangeTrace, ctx: &mut Ctx, skip_inspect: bool) -> Result<
                         }
                     }
                 }
-                let before = enc.written().len();
+                let before = enc.written_len();
                 let res = enc.enc(b, *sym);
                 if res != EncRes::Ok {
                     if ctx.any(&["C02", "C09", "C06"]) {
@@ -388,7 +435,7 @@ fn exec_cfg<C: Ws>(t: &RangeTrace, ctx: &mut Ctx, skip_inspect: bool) -> Result<
                     return Ok(log);
                 }
                 ctx.stats.hit("op-enc");
-                let wrote = enc.written().len() - before;
+                let wrote = enc.written_len() - before;
                 if wrote > 1 {
                     ctx.stats.hit("probe-carry-resolved-multiword");
                 }
@@ -493,6 +540,39 @@ fn exec_cfg<C: Ws>(t: &RangeTrace, ctx: &mut Ctx, skip_inspect: bool) -> Result<
                 } else if res == EncRes::Ok {
                     return Ok(log);
                 }
+            }
+            RangeOp::Reassemble => {
+                let raw = enc.raw();
+                let st = enc.state();
+                let moved = enc;
+                let res = std::panic::catch_unwind(std::panic::AssertUnwindSafe(move || moved.reassemble()));
+                ctx.stats.hit("op-encoder-reassembled");
+                enc = match res {
+                    Ok(e) => e,
+                    Err(_) => {
+                        if ctx.any(&["C02", "C06", "C08"]) {
+                            viol!(ctx, ctx.prop, "range-encoder-raw-parts-refused", "from_raw_parts(into_raw_parts(encoder)) panicked after {} symbols (state {:x?}, parts {:?})", message.len(), st, raw);
+                        }
+                        return Ok(log);
+                    }
+                };
+                if ctx.any(&["C02", "C06", "C08"]) && (enc.raw() != raw || enc.state() != st) {
+                    viol!(ctx, ctx.prop, "range-encoder-changed-by-reassembly", "{:?} -> {:?}", raw, enc.raw());
+                }
+            }
+            RangeOp::Clear => {
+                let Enc::V(c) = &mut enc else { ctx.stats.hit("skipped-op"); continue };
+                if !prefix.is_empty() { ctx.stats.hit("skipped-op"); continue }
+                if matches!(enc_num_inv, Some(k) if k > 0) { ctx.stats.hit("probe-clear-while-inverted"); }
+                c.clear();
+                ctx.stats.hit("op-clear");
+                r = RefRange::new(C::WB, C::SB);
+                message.clear();
+                snaps.clear();
+                info = 0.0;
+                eps = 0.0;
+                r_valid = true;
+                last_written.clear();
             }
             RangeOp::Inspect { view, n } => {
                 if skip_inspect {
@@ -687,9 +767,14 @@ fn exec_cfg<C: Ws>(t: &RangeTrace, ctx: &mut Ctx, skip_inspect: bool) -> Result<
         }
         Source::IntoDecoder if guard_source && suffix_len == 0 => {
             if let Some(Enc::V(c)) = enc_keep.take() {
-                match c.into_decoder() {
-                    Ok(d) => consume!(d, true, "into_decoder()"),
-                    Err(()) => if ctx.on("C02") { viol!(ctx, "C02", "into-decoder-failed", "") },
+                if c.bulk().len() & 1 == 1 {
+                    let d: RangeDecoder<C::W, C::S, _> = c.into();
+                    consume!(d, true, "RangeDecoder::from(encoder)");
+                } else {
+                    match c.into_decoder() {
+                        Ok(d) => consume!(d, true, "into_decoder()"),
+                        Err(()) => if ctx.on("C02") { viol!(ctx, "C02", "into-decoder-failed", "") },
+                    }
                 }
             }
         }
@@ -906,7 +991,10 @@ pub fn generate(seed: u64, prop: &str, thorough: bool) -> RangeTrace {
         _ => 14,
     };
     let cap = if prop == "C12" || (thorough && rng.chance(1, 50)) { 2000 } else { 200 };
-    let n_syms = if rng.chance(1, 25) { 0 } else { rng.len(mean, cap) };
+    let n_syms = if prop == "C12" && bias.chance(1, if thorough { 20 } else { 60 }) {
+        // long message: small per-symbol losses need many symbols to use up the constant
+        20_000 + rng.usize(20_000)
+    } else if rng.chance(1, 25) { 0 } else { rng.len(mean, cap) };
     let sink = match prop {
         "C08" | "C18" => Sink::Vec,
         "C07" => bias.pick(&[Sink::Vec, Sink::Vec, Sink::Store, Sink::Cursor]).clone(),
@@ -921,6 +1009,8 @@ pub fn generate(seed: u64, prop: &str, thorough: bool) -> RangeTrace {
     let w_badsym = if prop == "C09" { 25 } else { 0 };
     let w_snap = if prop == "C07" { 35 } else { 0 };
     let w_batch = 6;
+    let w_reasm = if matches!(prop, "C02" | "C06" | "C08") { 4 } else { 0 };
+    let can_clear = matches!(prop, "C02" | "C06") && sink == Sink::Vec && prefix.is_empty();
     let steer = bias.chance(2, 3);
     let goal = bias.below(4);
     let adversarial = bias.chance(1, 3);
@@ -934,6 +1024,7 @@ pub fn generate(seed: u64, prop: &str, thorough: bool) -> RangeTrace {
     crate::for_cfg!(cfg, |C| {
         let mut shadow = RangeEncoder::<<C as Ws>::W, <C as Ws>::S>::new();
         let mut encoded = 0;
+        let mut n_clears = 0;
         while encoded < n_syms {
             let r = rng.below(100);
             if r < w_inspect {
@@ -970,7 +1061,21 @@ pub fn generate(seed: u64, prop: &str, thorough: bool) -> RangeTrace {
                 n_snaps += 1;
                 continue;
             }
-            if r < w_inspect + w_badsym + w_snap + w_batch {
+            if r < w_inspect + w_badsym + w_snap + w_reasm {
+                ops.push(RangeOp::Reassemble);
+                continue;
+            }
+            if can_clear && n_clears < 2 {
+                // restart on the same encoder: rarely at a random point, often while words are held back
+                let inverted = !matches!(shadow.clone().into_raw_parts().2, constriction::stream::queue::EncoderSituation::Normal);
+                if (inverted && rng.chance(1, 6)) || rng.chance(1, 120) {
+                    ops.push(RangeOp::Clear);
+                    shadow = RangeEncoder::<<C as Ws>::W, <C as Ws>::S>::new();
+                    n_clears += 1;
+                    continue;
+                }
+            }
+            if r < w_inspect + w_badsym + w_snap + w_reasm + w_batch {
                 let form = *rng.pick(&[EncForm::Symbols, EncForm::Try, EncForm::Iid, EncForm::Loop]);
                 let k = rng.len(3, 10).min(n_syms - encoded);
                 let m0 = rng.usize(n_models);
